@@ -96,12 +96,19 @@ func (e *Env) lookupIdent(name string) (Val, bool) {
 				return v, true
 			}
 		}
-		if ls := e.frame.locals[name]; len(ls) > 0 {
-			p := ls[len(ls)-1]
-			return e.load(p.P, deref(p.Typ)), true
-		}
-		if v, ok := e.frame.params[name]; ok {
-			return v, true
+		// lexical scoping: a callback running on top of the frame sees its own variables first, then
+		// those of the functions it is nested in
+		for _, f := range e.lexicalFrames() {
+			if ls := f.locals[name]; len(ls) > 0 {
+				p := ls[len(ls)-1]
+				if p.K != KPtr {
+					return p, true // free variable bound to a value
+				}
+				return e.load(p.P, deref(p.Typ)), true
+			}
+			if v, ok := f.params[name]; ok {
+				return v, true
+			}
 		}
 	}
 	// package-level constant or variable
@@ -131,6 +138,33 @@ func (e *Env) lookupIdent(name string) (Val, bool) {
 		}
 	}
 	return e.fail("unknown identifier %q", name)
+}
+
+// lexicalFrames: the frame the environment was made for, preceded by the frames above it that run
+// closures lexically nested in its function (innermost first).
+func (e *Env) lexicalFrames() []*Frame {
+	var out []*Frame
+	base := -1
+	for i, f := range e.st.frames {
+		if f == e.frame {
+			base = i
+		}
+	}
+	if base >= 0 {
+		for i := len(e.st.frames) - 1; i > base; i-- {
+			f := e.st.frames[i]
+			nested := false
+			for p := f.fn.Parent(); p != nil; p = p.Parent() {
+				if p == e.frame.fn {
+					nested = true
+				}
+			}
+			if nested {
+				out = append(out, f)
+			}
+		}
+	}
+	return append(out, e.frame)
 }
 
 func (e *Env) objVal(obj types.Object) (Val, bool) {
@@ -306,7 +340,7 @@ func (e *Env) evalSelector(n *ast.SelectorExpr) (Val, bool) {
 	x := e.x
 	// package-qualified name?
 	if id, ok := n.X.(*ast.Ident); ok {
-		if _, bound := e.names[id.Name]; !bound && (e.frame == nil || (len(e.frame.locals[id.Name]) == 0 && !hasParam(e.frame, id.Name))) {
+		if _, bound := e.names[id.Name]; !bound && !e.isVariable(id.Name) {
 			if p := x.P.findPackage(id.Name, e.pkg); p != nil {
 				obj := p.Scope().Lookup(n.Sel.Name)
 				if obj == nil {
@@ -321,6 +355,18 @@ func (e *Env) evalSelector(n *ast.SelectorExpr) (Val, bool) {
 		return v, false
 	}
 	return e.fieldOf(v, n.Sel.Name, types.ExprString(n))
+}
+
+func (e *Env) isVariable(name string) bool {
+	if e.frame == nil {
+		return false
+	}
+	for _, f := range e.lexicalFrames() {
+		if len(f.locals[name]) > 0 || hasParam(f, name) {
+			return true
+		}
+	}
+	return false
 }
 
 func hasParam(fr *Frame, name string) bool {
